@@ -67,13 +67,14 @@ Print Assumptions C18_rejected_never_runs.
 Theorem C18_unsafe_never_runs :
   forall invoke_result format_result env attr_of item_of filter_res test_res op_res m e c,
   sandboxed m = true ->
-  c_unsafe c = true \/ c_alters c = true \/ c_call_unsafe c = true \/ c_call_alters c = true ->
+  c_unsafe c = true \/ c_alters c = true \/ c_call_unsafe c = true \/ c_call_alters c = true \/
+  c_icall_unsafe c = true \/ c_icall_alters c = true ->
   ~ In (EvInvoke c) (fst (eval is_safe_callable_default invoke_result format_result env attr_of item_of filter_res test_res op_res (gen m e))).
 Proof.
   intros invoke_result format_result env attr_of item_of filter_res test_res op_res m e c Hs Hu.
   apply C18_rejected_never_runs; [exact Hs|].
   unfold is_safe_callable_default. apply negb_false_iff.
-  destruct Hu as [-> | [-> | [-> | ->]]]; repeat (rewrite orb_true_r || rewrite orb_true_l); reflexivity.
+  destruct Hu as [-> | [-> | [-> | [-> | [-> | ->]]]]]; repeat (rewrite orb_true_r || rewrite orb_true_l); reflexivity.
 Qed.
 Print Assumptions C18_unsafe_never_runs.
 
@@ -113,11 +114,20 @@ Proof.
 Qed.
 Print Assumptions C18_format_methods_routed.
 
+(* functools.partial: refused as soon as the partial itself or anything it transitively wraps is marked *)
+Theorem C18_partial_of_marked_refused : forall w c, In c (w_runs w) ->
+  c_unsafe c = true \/ c_alters c = true -> is_safe_wcallable w = false.
+Proof.
+  intros w c Hin Hm. apply (wcallable_refused w c Hin). unfold is_safe_callable_default. apply negb_false_iff.
+  destruct Hm as [-> | ->]; repeat (rewrite orb_true_r || rewrite orb_true_l); reflexivity.
+Qed.
+Print Assumptions C18_partial_of_marked_refused.
+
 (* Wrappers built by the host.  [runs_inside c]: what running c runs (functools.partial(f) runs f).
    _partial: everything that ran is accepted by the predicate in force, under the guard that accepted
    callables only run accepted callables inside.  _refuted: without the guard an unsafe-marked
-   function wrapped in an (unmarked) functools.partial runs — recorded as known finding
-   C18-partial-wraps-unsafe. *)
+   function wrapped in an opaque host-built callable (a closure, operator.methodcaller; functools.partial itself is
+   seen through since 6689262) runs: such wrappers are outside what the predicate can see. *)
 Theorem C18_wrapped_partial :
   forall policy invoke_result format_result env attr_of item_of filter_res test_res op_res runs_inside m e c,
   (forall w, policy w = true -> forall u, In u (runs_inside w) -> policy u = true) ->
@@ -132,10 +142,10 @@ Qed.
 Print Assumptions C18_wrapped_partial.
 
 (* ------------------------------------------------------------------ witnesses *)
-Definition ex_unsafe : callable := mkCallable 1 true false false false false.
-Definition ex_alters : callable := mkCallable 2 false true false false false.
-Definition ex_safe : callable := mkCallable 3 false false false false false.
-Definition ex_fmt : callable := mkCallable 4 false false true false false.
+Definition ex_unsafe : callable := mkCallable 1 true false false false false false false.
+Definition ex_alters : callable := mkCallable 2 false true false false false false false.
+Definition ex_safe : callable := mkCallable 3 false false false false false false false.
+Definition ex_fmt : callable := mkCallable 4 false false true false false false false.
 Definition ex_env (n : string) : cval :=
   if String.eqb n "hf" then CVCallable ex_fmt else
   if String.eqb n "u" then CVCallable ex_unsafe else if String.eqb n "a" then CVCallable ex_alters
@@ -159,8 +169,8 @@ Example C18_unsandboxed_refuted :
   In (EvInvoke ex_unsafe) (fst (ex_eval (mkMode false false) ex_expr)) /\ gated (gen (mkMode false false) ex_expr) = false.
 Proof. vm_compute. split; [tauto|reflexivity]. Qed.
 
-(* p = functools.partial(u): p carries no marker, running it runs the unsafe-marked u *)
-Definition ex_partial : callable := mkCallable 5 false false false false false.
+(* p = an opaque host-built wrapper (closure) around u: p carries no marker, running it runs the unsafe-marked u *)
+Definition ex_partial : callable := mkCallable 5 false false false false false false false.
 Example C18_wrapped_refuted :
   let runs_inside := fun c => if Nat.eqb (c_id c) 5 then [ex_unsafe] else [] in
   let log := fst (eval is_safe_callable_default (fun _ _ => CVData 7) (fun _ _ => CVData 8)
@@ -172,5 +182,8 @@ Proof. vm_compute. split; [tauto|reflexivity]. Qed.
 
 (* a callable instance whose class marks __call__ is refused *)
 Example C18_call_marked_example :
-  is_safe_callable_default (mkCallable 6 false false false true false) = false.
-Proof. reflexivity. Qed.
+  is_safe_callable_default (mkCallable 6 false false false true false false false) = false /\
+  is_safe_callable_default (mkCallable 7 false false false false false false true) = false /\
+  is_safe_wcallable (WPartial ex_safe (WPartial ex_safe (WPlain ex_unsafe))) = false /\
+  is_safe_wcallable (WPartial ex_safe (WPlain ex_safe)) = true.
+Proof. vm_compute. repeat split; reflexivity. Qed.
